@@ -8,7 +8,7 @@ for d in ${@:-$(ls seeded)}; do
   P=${d:0:3}
   git -C "$WT" checkout -q -- . ; git -C "$WT" checkout -q --detach "$(git -C /repo rev-parse HEAD)"
   if ! git -C "$WT" apply "$PWD/seeded/$d/patch.diff" 2>/dev/null; then echo "$d does-not-apply"; continue; fi
-  out=$(VERIF_REPO="$WT" ./vcheck "$P" --tier quick 2>/dev/null); rc=$?
+  out=$(VERIF_EVIDENCE_DIR=/tmp/wt/evidence_scratch VERIF_REPO="$WT" ./vcheck "$P" --tier quick 2>/dev/null); rc=$?
   n=$(echo "$out" | grep -c '^VIOLATION')
   if [ $rc -eq 1 ] && [ $n -gt 0 ]; then echo "$d detected ($n distinct violation keys shown)"; else echo "$d MISSED rc=$rc"; fi
 done
